@@ -51,6 +51,13 @@ def _cases(tier):
             yield {"h": [["G", spec]], "cfg": "graph", "merge": merge, "dkr": [r"k\d"]}
     for spec in A.sibling_graph_specs():
         yield {"h": [["G", spec]], "cfg": "graph", "merge": "default", "dkr": [r"k\d"]}
+    # merged models whose shared field varies
+    for v0 in A.VARIED_ATOMS:
+        for v1 in A.VARIED_ATOMS:
+            for v2 in A.VARIED_ATOMS:
+                if tier == "quick" and len({v0, v1, v2}) < 2:
+                    continue
+                yield {"h": [["J", A.varied_merge_samples(v0, v1, v2, False)[0]]], "cfg": "ir+pydantic+dc"}
     # dict-option axis
     for opts in DICT_OPTS:
         for h in A.histories(DICT_OBJS, hd):
